@@ -16,7 +16,12 @@ SPEC = dict(
          "prefix/suffix extensions, empty, absent, others) x ~80 wrapper arrangements (sent/received, wrong namespace/tag, wrapper "
          "not first, two wrappers, missing/empty/second forwarded, wrong-namespace message, nested wrapper, extra payloads) x both "
          "generations; then seeded random stanzas (100-300 per client, 160 clients quick / 1600 thorough) over the full alphabet "
-         "with prefixed-element and interleaved text/comment renderings. A client's sequence is non-trivial when it yields >= 2 "
+         "with prefixed-element and interleaved text/comment renderings. Account switches on ONE long-lived client + manager "
+         "(`config` op = configuration() overwritten / setters, as connectToServer(config) does): exhaustive sequences of depth 4 "
+         "(quick) / 5 (thorough) over a 9-symbol alphabet {switch to A, B, case-look-alike of A; carbon from A, from B, from the "
+         "look-alike, from A's full JID, without from; plain message} for both generations, plus 120 / 1200 random clients with "
+         "~12% switches among 7 accounts and senders drawn from current, former and look-alike own JIDs; oracle and model judge "
+         "every stanza against the configuration current at that moment. A client's sequence is non-trivial when it yields >= 2 "
          "distinct observations. Independent oracle: flagged/carbon-channel message => outer from == own bare JID and content == "
          "an inner message at the sent|received/forwarded/message path; unflagged message => it is the outer stanza.",
     trusted_base=[
